@@ -20,8 +20,8 @@ from .. import instrs as I
 from ..model import AnalysisError, Unknown, dotted, src
 from . import c03
 
-TECHNIQUE = "AST template extraction of printers vs operand order / parser symbol table agreement (static analysis)"
-ENGINES = ["model", "instrs"]
+TECHNIQUE = "AST template extraction of printers vs operand order / parser symbol table agreement; abstract interpretation of small functions over an enumerated finite domain by the checker's own AST interpreter (static analysis)"
+ENGINES = ["model", "instrs", "circuit"]
 EXPLANATION = (
     "For every instruction shape: the f-string of _pretty_print is decomposed into (mnemonic, operand references, separators) and "
     "compared with the `operands` order; from_operands' unpacking order and accepted kinds are compared with the same order; "
